@@ -12,7 +12,7 @@ pub struct Cfg {
 
 pub const MEMTABLE_SIZES: &[usize] = &[512, 700, 1500, 5000, 100_000, 4 * 1024 * 1024];
 pub const FILE_SIZES: &[u64] = &[400, 1024, 2048, 6000, 1024 * 1024];
-pub const BLOCK_SIZES: &[usize] = &[16, 32, 128, 1024, 4096];
+pub const BLOCK_SIZES: &[usize] = &[16, 32, 128, 1024, 4096, 8192, 65_536];
 
 /// Selector: a u16 mapped monotonically onto `0..len` at interpretation time so that every
 /// generated (and every shrunk) case is valid whatever the surrounding operations are.
